@@ -22,6 +22,9 @@ type Engine struct {
 	repoDir   string
 	verifDir  string
 	prog      *ssa.Program
+	ghostReachMemo map[string]int
+	implMemo       map[string][]*ssa.Function
+	sigMemo        map[string][]*ssa.Function
 	fset      *token.FileSet
 	pkgs      []*packages.Package
 	ssaPkgs   map[string]*ssa.Package
@@ -108,6 +111,13 @@ func (e *Engine) Load(patterns []string) error {
 		prefix := t.PkgPath + "." + strings.TrimSuffix(t.Key, "*")
 		var names []string
 		for n := range e.fnByName {
+			if strings.HasPrefix(t.Key, "*") {
+				// "*).Range": every method of that name in the package
+				if strings.HasPrefix(n, t.PkgPath+".(") && strings.HasSuffix(n, t.Key[1:]) && !strings.Contains(n, "$") {
+					names = append(names, n)
+				}
+				continue
+			}
 			if strings.HasPrefix(n, prefix) && !strings.Contains(n[len(prefix):], "$") {
 				names = append(names, n)
 			}
